@@ -374,6 +374,45 @@ func main() {
 		check(w, *goose, mod, "x/"+it[0], outRoot, v)
 		packages++
 	}
+	// several packages in one invocation (the packages are translated by concurrent workers):
+	// the whole catalogue and everything generated so far, a few times
+	for i := 0; i < 4; i++ {
+		out := filepath.Join(outRoot, "multi")
+		os.RemoveAll(out)
+		pats := []string{"./g/...", "./x/...", "./many/..."}
+		if !*noCat {
+			pats = append(pats, "./c/...")
+		}
+		cmd := exec.Command(*goose, append([]string{"-out", out, "-ignore-errors"}, pats...)...)
+		cmd.Dir = mod
+		cmd.Env = goEnv()
+		var buf bytes.Buffer
+		cmd.Stdout = &buf
+		cmd.Stderr = &buf
+		err := cmd.Run()
+		st := 0
+		if ee, ok := err.(*exec.ExitError); ok {
+			st = ee.ExitCode()
+		} else if err != nil {
+			st = -1
+		}
+		txt := buf.String()
+		if (st != 0 && st != 1) || strings.Contains(txt, "goroutine ") || strings.Contains(txt, "panic:") || strings.Contains(txt, "fatal error:") {
+			v.crashes++
+			d := txt
+			if j := strings.Index(d, "fatal error"); j >= 0 {
+				d = d[j:]
+			} else if j := strings.Index(d, "panic"); j >= 0 {
+				d = d[j:]
+			}
+			if len(d) > 1800 {
+				d = d[:1800]
+			}
+			fmt.Fprintf(w, "MISMATCH kind=crash pkg=%s detail=%s\n", strings.Join(pats, ","), hex.EncodeToString([]byte(fmt.Sprintf("exit status %d\n%s", st, d))))
+			break
+		}
+		packages++
+	}
 	// mutants of the shipped examples
 	examples := []string{"unittest", "semantics", "append_log", "simpledb", "wal", "logging2", "rfc1813", "comments", "async"}
 	mutants, discarded := 0, 0
